@@ -303,6 +303,12 @@ def _expr(s: dict, prog: dict) -> List[str]:
             return [f"{o} = {x} * ({x}.argmax(-1).unsqueeze(-1) > 0)"]
         if s["kind"] == "gt_where":
             return [f"{o} = torch.where({x} > 0, {x}, {x} * 0.1)"]
+        if s["kind"] == "gt_other":
+            # a float tensor (the threshold) whose ONLY consumer is a bool node with two float-tensor inputs
+            return [f"thr_{o} = {x}.abs().mean(-1, keepdim=True)", f"{o} = torch.where({x} > thr_{o}, {x}, {x} * 0.1)"]
+        if s["kind"] == "vote":
+            # an integer side computation over two float tensors that feeds nothing float: index tensors stacked and compared
+            return [f"{o} = {x} * (torch.stack([{x}.argmax(-1), torch.tanh({x}).argmin(-1)]).sum(0).unsqueeze(-1) >= 0)"]
         raise KeyError(s["kind"])
     if op == "detach":
         return [f"{o} = {s['x']}.detach() + 0.0 * {s['x']}" if s.get("keep_grad") else f"{o} = {s['x']}.detach()"]
@@ -736,7 +742,16 @@ def evaluate(prog: dict, P: Dict[str, torch.Tensor], inputs: Dict[str, torch.Ten
             v = P[f"p{i}"]
         elif op == "intop":
             x = env[s["x"]]
-            v = x * (x.argmax(-1).unsqueeze(-1) > 0) if s["kind"] == "argmax_mask" else torch.where(x > 0, x, x * 0.1)
+            if s["kind"] == "argmax_mask":
+                v = x * (x.argmax(-1).unsqueeze(-1) > 0)
+            elif s["kind"] == "gt_where":
+                v = torch.where(x > 0, x, x * 0.1)
+            elif s["kind"] == "gt_other":
+                v = torch.where(x > x.abs().mean(-1, keepdim=True), x, x * 0.1)
+            elif s["kind"] == "vote":
+                v = x * (torch.stack([x.argmax(-1), torch.tanh(x).argmin(-1)]).sum(0).unsqueeze(-1) >= 0)
+            else:
+                raise KeyError(s["kind"])
         elif op == "detach":
             x = env[s["x"]]
             v = x.detach() + 0.0 * x if s.get("keep_grad") else x.detach()
@@ -832,7 +847,7 @@ class _Builder:
         if k == "conv1d":
             return self.emit(op="conv1d", x=x, i=self.idx())
         if k == "intop":
-            return self.emit(op="intop", kind=d(st.sampled_from(["argmax_mask", "gt_where"])), x=x)
+            return self.emit(op="intop", kind=d(st.sampled_from(["argmax_mask", "gt_where", "gt_other", "vote"])), x=x)
         if k == "gate":
             # two paths computed from the same tensor, multiplied (SwiGLU-like gating): a branch with more than one way back to x
             sub = [kk for kk in kinds if kk not in ("gate", "shape", "scalar_add", "intop")] or ["ew"]
@@ -1027,7 +1042,7 @@ def grad_fanout(prog: dict) -> int:
             for v in (s["q"], s["k"], s["v"]):
                 use(v)
         elif op == "intop":
-            use(s["x"], 3 if s["kind"] == "gt_where" else 1)
+            use(s["x"], {"gt_where": 3, "gt_other": 4, "vote": 2}.get(s["kind"], 1))
         elif op == "shape" and s["kind"] in ("stack_sum", "rotate_half", "slice_cat"):
             use(s["x"], 2)
         elif op == "detach":
